@@ -66,7 +66,7 @@ def sut(fn, *args, **kwargs):
     allowed = kwargs.pop("allowed", ())
     try:
         return fn(*args, **kwargs)
-    except Violation:
+    except (Violation, Reject):
         raise
     except allowed:
         raise
